@@ -337,6 +337,18 @@ func (a *c19reads) summary(f *flow.Func, depth int) *c19sum {
 	s := &c19sum{counts: map[int]*flow.State{}}
 	seen := map[*ast.CallExpr]bool{}
 	res := analyze(a.c, f, flow.Config{NoHavoc: true,
+		// small predicates on an enum-like flag (`scope.isPrefix()`) are interpreted in place so
+		// that the branch learns the comparison they make
+		Inline: func(call *ast.CallExpr, callee *types.Func) *flow.Func {
+			sig, ok := callee.Type().(*types.Signature)
+			if !ok || sig.Recv() == nil || !c19isEnum(sig.Recv().Type()) || callee.Pkg() != f.Pkg.Types {
+				return nil
+			}
+			if hfd := declOf(f.Pkg, callee); hfd != nil {
+				return flow.NewFunc(f.Pkg, hfd)
+			}
+			return nil
+		},
 		OnCall: func(st *flow.State, call *ast.CallExpr, callee types.Object, deferred bool) {
 			n := a.callCount(f, call, depth)
 			if n > 0 && !seen[call] {
@@ -444,7 +456,7 @@ func c19Pull(c *core.Ctx, r *c19run) {
 			switch {
 			case c19isString(t):
 				okArgs = okArgs && r.fromRunParam(uf, arg, r.keyObj, 0)
-			case c19isBool(t):
+			case c19isBool(t) || (r.prefEnum && t != nil && types.Identical(t, r.prefObj.Type())):
 				okArgs = okArgs && r.fromRunParam(uf, arg, r.prefObj, 0)
 			case r.targetObj != nil && t != nil && types.Identical(t, r.targetObj.Type()):
 				okArgs = okArgs && r.fromRunParam(uf, arg, r.targetObj, 0)
@@ -525,6 +537,98 @@ func c19Pull(c *core.Ctx, r *c19run) {
 			}
 		}
 		flagKey := ""
+		if nb == 0 && r.prefEnum {
+			// an enum-like flag: find the comparison `flag == K` that separates the prefix reads
+			// from the single-key reads, and remember what "prefix" means for the adapters
+			var ep *types.Var
+			for _, v := range c19params(pf, pf.Type) {
+				if types.Identical(v.Type(), r.prefObj.Type()) {
+					ep = v
+				}
+			}
+			if ep == nil {
+				c.Undecide("R-C19-2", pname+"|prefix read iff prefix flag", pos(c, d.fd), "pull does not take run's scope value")
+				continue
+			}
+			pre := "eq:" + pf.Render(c19defIdent(pf, d.fd.Type, ep)) + "=="
+			type obs struct{ pref, single map[flow.Val]bool }
+			seenKeys := map[string]*obs{}
+			nP, nS := 0, 0
+			sitePrefE := func(site *ast.CallExpr) bool {
+				isPref := a.withPrefix(pf.Info, site)
+				if cfo, ok := c19concrete(pf.Callee(site)).(*types.Func); ok && !c19isKV(cfo) {
+					if cd := a.declOf(cfo); cd != nil {
+						for _, g := range reach(flow.NewFunc(cd.pkg, cd.fd), 3) {
+							if a.withPrefix(g.Info, g.Body) {
+								isPref = true
+							}
+						}
+					}
+				}
+				return isPref
+			}
+			for _, site := range s.sites {
+				isPref := sitePrefE(site)
+				for _, st := range s.res.At[site] {
+					if isPref {
+						nP++
+					} else {
+						nS++
+					}
+					for _, kv := range st.Facts() {
+						i := strings.LastIndex(kv, "=")
+						k := kv[:i]
+						if !strings.HasPrefix(k, pre) {
+							continue
+						}
+						o := seenKeys[k]
+						if o == nil {
+							o = &obs{map[flow.Val]bool{}, map[flow.Val]bool{}}
+							seenKeys[k] = o
+						}
+						if isPref {
+							o.pref[st.Get(k)] = true
+						} else {
+							o.single[st.Get(k)] = true
+						}
+					}
+				}
+			}
+			found := false
+			for _, k := range sortedKeys(seenKeys) {
+				o := seenKeys[k]
+				if len(o.pref) == 1 && len(o.single) == 1 && nP > 0 && nS > 0 {
+					var pv, sv flow.Val
+					for v := range o.pref {
+						pv = v
+					}
+					for v := range o.single {
+						sv = v
+					}
+					// every state of either kind must carry the fact: count them
+					cp, cs := 0, 0
+					for _, site := range s.sites {
+						for _, st := range s.res.At[site] {
+							if st.Get(k) != flow.Unknown {
+								if sitePrefE(site) {
+									cp++
+								} else {
+									cs++
+								}
+							}
+						}
+					}
+					if pv != sv && cp == nP && cs == nS && !found {
+						found = true
+						r.prefVal, r.prefIs, r.prefKnown = k[len(pre):], pv == flow.True, true
+					}
+				}
+			}
+			c.Check(found, "R-C19-2", pname+"|prefix read iff prefix flag", pos(c, d.fd),
+				sprintf("%d read site(s): a comparison of the scope value separates the WithPrefix reads from the plain reads (prefix ⇔ (scope == %s) is %v)", len(s.sites), r.prefVal, r.prefIs),
+				"no comparison of the scope value separates the prefix reads from the single-key reads: a prefix read is reachable for a single-key syncer or the other way round")
+			continue
+		}
 		if nb == 1 {
 			flagKey = pf.VarKey(c19defIdent(pf, d.fd.Type, flag))
 		} else if nb == 0 {
